@@ -256,7 +256,7 @@ func oneRun(o *kit.Out, r *kit.Rand, dir string, idx int, mode, ending, body str
 	}
 	// triggering stopped on time: no body started later than the deadline (+ slack for scheduling)
 	late := int64(0)
-	if ending == "max-duration" && time.Duration(lastStart.Load()) > opts.MaxDuration+60*time.Millisecond {
+	if ending == "max-duration" && time.Duration(lastStart.Load()) > opts.MaxDuration+120*time.Millisecond {
 		late = 1
 	}
 	// a run whose context is already cancelled when it begins must not trigger anything (rate triggers
